@@ -294,13 +294,13 @@ class Impute(EnvironmentFilter):
         start = time.time()
         if is_dense:
             if self._stat in ["mean","median"]:
-                imputable_cols = [i for i,v in enumerate(first['context']) if isinstance(v,(int,float) or v is None)]
+                imputable_cols = [i for i,v in enumerate(first['context']) if isinstance(v,(int,float)) or v is None]
             else:
                 imputable_cols = list(range(len(first['context'])))
 
         elif is_sparse:
             if self._stat in ['mean','median']:
-                unimputable_cols = {k for k,v in first['context'].items() if not isinstance(v,(int,float) or v is None)}
+                unimputable_cols = {k for k,v in first['context'].items() if not (isinstance(v,(int,float)) or v is None)}
             else:
                 unimputable_cols = {}
 
@@ -401,6 +401,8 @@ class Impute(EnvironmentFilter):
     def _get_imputation(self,values):
         try:
             values = [v for v in values if v is not None]
+            if self._stat != "mode" and not all(isinstance(v,(int,float)) for v in values):
+                return None #e.g., the median of an odd number of strings is a string
             if self._stat == "mean":
                 return sum(values)/len(values)
             if self._stat == "median":
